@@ -28,7 +28,7 @@ def run(ctx):
             err.append(e)
 
     th = threading.Thread(target=model)
-    conf = {'cases': 10, 'max_per_field': 8} if ctx.quick else {'cases': 10 ** 6, 'max_per_field': 14}
+    conf = {'cases': 10, 'max_per_field': 15} if ctx.quick else {'cases': 10 ** 6, 'max_per_field': 15}
     specs = sh.trace_specs(ctx, 'c07', 1)
     res = sh.generate(specs, conf, nproc=6 if ctx.quick else 14)
     th.start()  # only after the fork pool is gone: forking with a live thread can deadlock the children
